@@ -3,7 +3,8 @@
 FIXED = {"range": 1, "caller": 2, "loop": 3}
 ATTRS = {"index": 1, "index0": 2, "revindex": 3, "revindex0": 4, "length": 5, "first": 6, "last": 7}
 FILTERS = {"length": 1, "upper": 2, "lower": 3, "trim": 4, "capitalize": 5, "string": 6, "abs": 7, "default": 8,
-           "first": 9, "last": 10, "safe": 11, "escape": 12}
+           "first": 9, "last": 10, "safe": 11, "escape": 12,
+           "replace": 13, "join": 14, "format": 15, "list": 16}
 TESTS = {"defined": 1, "undefined": 2, "odd": 3, "even": 4, "none": 5}
 BINOPS = {"+": 0, "-": 1, "*": 2, "//": 3, "%": 4, "~": 5}
 CMPOPS = {"==": 0, "!=": 1, "<": 2, "<=": 3, ">": 4, ">=": 5, "in": 6, "notin": 7}
